@@ -222,6 +222,27 @@ Proof.
   exists s2. split; [exact E2|]. replace (W * (count / W) + (count - W * (count / W)) * 1) with count in P2 by lia. exact P2.
 Qed.
 
+(** the same, the block obligation only at indices that are multiples of the block width *)
+Lemma simd_loop_inv_div {St} (P : nat -> St -> Prop) W count (block step : nat -> St -> res St) s :
+  0 < W -> P 0 s ->
+  (forall j s0, j mod W = 0 -> j + W <= count -> P j s0 -> exists s1, block j s0 = Ok s1 /\ P (j + W) s1) ->
+  (forall j s0, j < count -> P j s0 -> exists s1, step j s0 = Ok s1 /\ P (j + 1) s1) ->
+  exists s', simd_loop W count block step s = Ok s' /\ P count s'.
+Proof.
+  intros HW H0 Hb Hs. unfold simd_loop.
+  pose proof (Nat.mul_div_le count W ltac:(lia)) as Hle.
+  destruct (iter_blocks_inv (fun j s => P j s /\ j mod W = 0) block W (count / W) 0 s) as [s1 [E1 [P1 _]]].
+  { split; [exact H0|]. apply Nat.mod_0_l. lia. }
+  { intros j s0 _ H2 [H3 H4]. cbn in H2. rewrite (Nat.mul_comm (count / W) W) in H2.
+    destruct (Hb j s0 H4 ltac:(lia) H3) as [s1 [E1 P1]]. exists s1. split; [exact E1|]. split; [exact P1|].
+    rewrite <- Nat.add_mod_idemp_l by lia. rewrite H4. cbn [plus]. apply Nat.mod_same. lia. }
+  rewrite E1. cbn [bind].
+  cbn [plus] in P1. rewrite (Nat.mul_comm (count / W) W) in P1.
+  destruct (iter_blocks_inv P step 1 (count - W * (count / W)) (W * (count / W)) s1 P1) as [s2 [E2 P2]].
+  { intros j s0 H1 H2 H3. apply Hs; [lia|exact H3]. }
+  exists s2. split; [exact E2|]. replace (W * (count / W) + (count - W * (count / W)) * 1) with count in P2 by lia. exact P2.
+Qed.
+
 Lemma scalar_loop_inv {St} (P : nat -> St -> Prop) count (step : nat -> St -> res St) s :
   P 0 s ->
   (forall j s0, j < count -> P j s0 -> exists s1, step j s0 = Ok s1 /\ P (j + 1) s1) ->
